@@ -21,6 +21,7 @@ Generated once by harness/mkprops.py from harness/props_table.py + PGProperties/
 -/
 import PGProofs.MeanIncrement
 import PGProofs.Glue
+import PGProofs.ApiThm
 
 set_option linter.all false
 set_option pp.fieldNotation.generalized false
@@ -52,6 +53,33 @@ theorem monotone : ∀ {K : Type} [inst : Field K] [inst_1 : LinearOrder K] [ins
 /-- the doubling search: no warning iff the threshold was reached; warning implies all iterations used -/
 theorem horizon_spec : ∀ (F : ℚ → ℚ) (t0 pAbs : ℚ) (maxIter : ℕ) (t : ℚ) (warn : Bool), absorptionLoop F t0 pAbs maxIter = (t, warn) → (warn = false ↔ pAbs ≤ F t) ∧ ∃ j ≤ maxIter, t = t0 * 2 ^ j ∧ (∀ k < j, F (t0 * 2 ^ k) < pAbs) ∧ (warn = true → j = maxIter) := @PG.absorption_spec
 
+/-- CALL LAYER: moment(end_time=T), moment() on an object whose horizon is T, and accumulate([T]) are the same number -/
+theorem call_routes_agree : ∀ {ρ : Type} (v : Api.Variant), v ≠ Api.Variant.falsyTimes → ∀ (ctx : Api.DistCtx ρ) (c : Api.MomentCall ρ) (T : ℚ), Api.resolveTime v c.startTime ctx.startDefault ≤ 0 → Api.momentCall v ctx { k := c.k, rewards := c.rewards, startTime := c.startTime, endTime := some T, center := c.center, permute := c.permute } = Except.map (fun l ↦ List.getD l 0 0) (Api.accumulateCall v ctx c.k c.rewards [T] c.center c.permute) ∧ Api.momentCall v { defaultReward := ctx.defaultReward, startDefault := ctx.startDefault, tMax := T, raw := ctx.raw } { k := c.k, rewards := c.rewards, startTime := c.startTime, center := c.center, permute := c.permute } = Except.map (fun l ↦ List.getD l 0 0) (Api.accumulateCall v ctx c.k c.rewards [T] c.center c.permute) := @PG.Api.api_routes_agree
+
+/-- moment(start_time=a>0, end_time=b) is accumulate at b minus accumulate at a -/
+theorem call_window_difference : ∀ {ρ : Type} (v : Api.Variant), v ≠ Api.Variant.falsyTimes → ∀ (ctx : Api.DistCtx ρ) (c : Api.MomentCall ρ) (a b : ℚ), 0 < a → Api.momentCall v ctx (Api.MomentCall.window c a b) = Except.map (fun l ↦ List.getD l 1 0 - List.getD l 0 0) (Api.accumulateCall v ctx c.k c.rewards [a, b] c.center c.permute) := @PG.Api.api_window_difference
+
+/-- windows [0,a] and [a,b] add up to [0,b] for every order and centring flag -/
+theorem call_window_additive : ∀ {ρ : Type} (v : Api.Variant), v ≠ Api.Variant.falsyTimes → ∀ (ctx : Api.DistCtx ρ) (c : Api.MomentCall ρ) (a b : ℚ), 0 < a → ∀ (x y : ℚ), Api.momentCall v ctx (Api.MomentCall.window c 0 a) = Except.ok x → Api.momentCall v ctx (Api.MomentCall.window c a b) = Except.ok y → Api.momentCall v ctx (Api.MomentCall.window c 0 b) = Except.ok (x + y) := @PG.Api.api_window_additive
+
+/-- the boundary a = 0 (single-accumulate route) under "nothing accumulated at time 0" -/
+theorem call_window_additive_at_zero : ∀ {ρ : Type} (ctx : Api.DistCtx ρ) (c : Api.MomentCall ρ) (b : ℚ), 1 ≤ c.k → (∀ (rs : List ρ), c.rewards = some rs → ↑(List.length rs) = c.k) → (∀ (l : List ρ), l ≠ [] → ctx.raw l 0 = 0) → ∀ (y : ℚ), Api.momentCall Api.Variant.current ctx (Api.MomentCall.window c 0 b) = Except.ok y → Api.momentCall Api.Variant.current ctx (Api.MomentCall.window c 0 0) = Except.ok 0 ∧ Api.momentCall Api.Variant.current ctx (Api.MomentCall.window c 0 b) = Except.ok (0 + y) := @PG.Api.api_window_additive_at_zero
+
+/-- an explicit end_time = 0 yields 0, not the default horizon -/
+theorem call_explicit_zero_end : ∀ {ρ : Type} (ctx : Api.DistCtx ρ) (c : Api.MomentCall ρ), c.endTime = some 0 → Api.resolveTime Api.Variant.current c.startTime ctx.startDefault ≤ 0 → 1 ≤ c.k → (∀ (rs : List ρ), c.rewards = some rs → ↑(List.length rs) = c.k) → (∀ (l : List ρ), l ≠ [] → ctx.raw l 0 = 0) → Api.momentCall Api.Variant.current ctx c = Except.ok 0 := @PG.Api.api_explicit_zero_end_value
+
+/-- an explicit start_time = 0 overrides a positive default start -/
+theorem call_explicit_zero_start : ∀ {ρ : Type} (v : Api.Variant), v ≠ Api.Variant.falsyTimes → ∀ (ctx : Api.DistCtx ρ) (c : Api.MomentCall ρ) (d : ℚ), Api.momentCall v { defaultReward := ctx.defaultReward, startDefault := d, tMax := ctx.tMax, raw := ctx.raw } { k := c.k, rewards := c.rewards, startTime := some 0, endTime := c.endTime, center := c.center, permute := c.permute } = Api.momentCall v { defaultReward := ctx.defaultReward, startDefault := 0, tMax := ctx.tMax, raw := ctx.raw } { k := c.k, rewards := c.rewards, endTime := c.endTime, center := c.center, permute := c.permute } := @PG.Api.api_explicit_zero_start
+
+/-- None arguments are the defaults (of any value) -/
+theorem call_none_is_default : ∀ {ρ : Type} (v : Api.Variant) (ctx : Api.DistCtx ρ) (c : Api.MomentCall ρ), Api.momentCall v ctx { k := c.k, rewards := c.rewards, endTime := c.endTime, center := c.center, permute := c.permute } = Api.momentCall v ctx { k := c.k, rewards := c.rewards, startTime := some ctx.startDefault, endTime := c.endTime, center := c.center, permute := c.permute } ∧ Api.momentCall v ctx { k := c.k, rewards := c.rewards, startTime := c.startTime, center := c.center, permute := c.permute } = Api.momentCall v ctx { k := c.k, rewards := c.rewards, startTime := c.startTime, endTime := some ctx.tMax, center := c.center, permute := c.permute } ∧ Api.momentCall v ctx { k := c.k, startTime := c.startTime, endTime := c.endTime, center := c.center, permute := c.permute } = Api.momentCall v ctx { k := c.k, rewards := some (List.replicate (Int.toNat c.k) ctx.defaultReward), startTime := c.startTime, endTime := c.endTime, center := c.center, permute := c.permute } ∧ ∀ (ts : List ℚ), Api.accumulateCall v ctx c.k none ts c.center c.permute = Api.accumulateCall v ctx c.k (some (List.replicate (Int.toNat c.k) ctx.defaultReward)) ts c.center c.permute := @PG.Api.api_none_is_default
+
+/-- accumulate on a list of times is entrywise the single-time call -/
+theorem call_pointwise : ∀ {ρ : Type} {v : Api.Variant} {ctx : Api.DistCtx ρ} {k : ℤ} {rewards : Option (List ρ)} {ts : List ℚ} {center permute : Bool} {l : List ℚ}, Api.accumulateCall v ctx k rewards ts center permute = Except.ok l → ∀ i < List.length ts, Api.accumulateCall v ctx k rewards [List.getD ts i 0] center permute = Except.ok [List.getD l i 0] := @PG.Api.api_accumulate_pointwise
+
+/-- kernel-checked: `x or default` replaces an explicit 0 -/
+theorem call_falsy_times_defect : Api.momentCall Api.Variant.falsyTimes (have __src := Api.ctxEx; { defaultReward := __src.defaultReward, startDefault := 0, tMax := __src.tMax, raw := __src.raw }) { k := 1, endTime := some 0, center := false } = Except.ok 8 ∧ Api.momentCall Api.Variant.current (have __src := Api.ctxEx; { defaultReward := __src.defaultReward, startDefault := 0, tMax := __src.tMax, raw := __src.raw }) { k := 1, endTime := some 0, center := false } = Except.ok 0 ∧ Api.momentCall Api.Variant.falsyTimes Api.ctxEx { k := 1, startTime := some 0, center := false } = Except.ok 7 ∧ Api.momentCall Api.Variant.current Api.ctxEx { k := 1, startTime := some 0, center := false } = Except.ok 8 ∧ Api.momentCall Api.Variant.current (have __src := Api.ctxEx; { defaultReward := __src.defaultReward, startDefault := 0, tMax := __src.tMax, raw := __src.raw }) { k := 1, center := false } = Except.ok 8 := @PG.Api.api_falsyTimes_counterexample
+
 end PG.C10
 
 #print axioms PG.C10.additive_windows
@@ -62,3 +90,12 @@ end PG.C10
 #print axioms PG.C10.direct_pieces
 #print axioms PG.C10.monotone
 #print axioms PG.C10.horizon_spec
+#print axioms PG.C10.call_routes_agree
+#print axioms PG.C10.call_window_difference
+#print axioms PG.C10.call_window_additive
+#print axioms PG.C10.call_window_additive_at_zero
+#print axioms PG.C10.call_explicit_zero_end
+#print axioms PG.C10.call_explicit_zero_start
+#print axioms PG.C10.call_none_is_default
+#print axioms PG.C10.call_pointwise
+#print axioms PG.C10.call_falsy_times_defect
